@@ -166,6 +166,9 @@ func (pc *parentController) syncRevisions(parent *unstructured.Unstructured, obs
 				return
 			}
 			pr.syncResult = syncResult
+			// With a generated selector the controller-uid label is part of every desired
+			// child; add it before the rollout compares desired and observed children.
+			pc.addGeneratedSelectorLabel(parent, syncResult.Children)
 			pr.desiredChildMap = commonv1.MakeRelativeObjectMap(parent, syncResult.Children)
 		}(pr)
 	}
@@ -303,6 +306,31 @@ func (pc *parentController) manageRevisions(parent *unstructured.Unstructured, o
 	}
 
 	return nil
+}
+
+// addGeneratedSelectorLabel adds the controller-uid label to desired children
+// that don't set it, if selector generation is enabled.
+func (pc *parentController) addGeneratedSelectorLabel(parent *unstructured.Unstructured, children []*unstructured.Unstructured) {
+	if !pc.isUsingGeneratedLabelSelector() {
+		return
+	}
+	for _, obj := range children {
+		if obj == nil {
+			continue
+		}
+		objLabels, _, err := unstructured.NestedStringMap(obj.UnstructuredContent(), "metadata", "labels")
+		if err != nil {
+			// Invalid labels are reported when the desired children are validated.
+			continue
+		}
+		if objLabels == nil {
+			objLabels = make(map[string]string, 1)
+		}
+		if _, ok := objLabels["controller-uid"]; !ok {
+			objLabels["controller-uid"] = string(parent.GetUID())
+			obj.SetLabels(objLabels)
+		}
+	}
 }
 
 func (pc *parentController) newControllerRevision(parent *unstructured.Unstructured, patch map[string]interface{}) (*v1alpha1.ControllerRevision, error) {
